@@ -197,7 +197,7 @@ theorem C17_aligned (m : Model) (p : Params) (due rev : Bool) (s : St)
   unfold backwardSimulate
   cases rev
   · exact h3
-  · exact h3.reverseLogs
+  · exact Bwd.Aligned.reverseLogs h3
 
 example : ({} : Params).initLog = true := rfl
 
@@ -300,9 +300,60 @@ example : ({} : Params).initState = true ∧ ({} : Params).initLog = true ∧
     (2, Dep.fs) ∈ (exB.task 0).outputs := by
   decide +kernel
 
-/-- the same with the link read from the predecessor list of `b`, for a model whose two lists
-describe the same edges -/
-theorem C17_reversed_order_sym (m : Model) (hsym : EdgeSym m) (p : Params) (due : Bool) (s : St)
+/-! The order clause with the link read from the *predecessor* list of `b`
+(`(a, FS) ∈ inputs b`) is false for a model whose two lists disagree:
+
+    theorem C17_reversed_order_inputs (m p due s) (hs : p.initState = true) (hl : p.initLog = true)
+        (ha : a < m.nT) (hb : b < m.nT) (hedge : (a, Dep.fs) ∈ (m.task b).inputs)
+        (hi : ((backwardSimulate m p due true s).logs.tState a)[i]? = some .working)
+        (hj : ((backwardSimulate m p due true s).logs.tState b)[j]? = some .working) : i < j
+
+`reverse_dependencies` swaps the lists task by task, so a link that is present only in
+`inputs b` becomes an *output* link of `b` in the backward model and constrains nothing
+(counterexample `exAsym` below).  With `EdgeSym m` — the invariant pDESy's own link-building
+methods maintain — the statement holds (`…_partial`). -/
+
+/-- counterexample model: task 1 lists 0 as FS predecessor, task 0 does not list 1 as successor -/
+def C17Ex.exAsym : Model where
+  nT := 2
+  nW := 2
+  nF := 0
+  nTeam := 1
+  nWp := 0
+  nC := 0
+  task := fun t =>
+    match t with
+    | 0 => { name := 0, work := 2 }
+    | 1 => { name := 1, work := 2, inputs := [(0, .fs)] }
+    | _ => default
+  worker := fun w => { team := 0, skills := [(w, 1)] }
+  fac := fun _ => {}
+  team := fun _ => { workers := [0, 1], targets := [0, 1] }
+  wp := fun _ => {}
+  comp := fun _ => {}
+
+/-- on `exAsym` both tasks are logged WORKING at steps 0 and 1 of the reversed backward run -/
+example : (0, Dep.fs) ∈ (exAsym.task 1).inputs ∧ GraphInRange exAsym ∧
+    ((backwardSimulate exAsym {} false true St.fresh).logs.tState 0)[1]? = some .working ∧
+    ((backwardSimulate exAsym {} false true St.fresh).logs.tState 1)[0]? = some .working := by
+  decide +kernel
+
+/-- **C17 (backward order, link read from `inputs b`).**  `C17_backward_order` for a model whose
+input and output lists describe the same edges. -/
+theorem C17_backward_order_partial (m : Model) (hsym : EdgeSym m) (p : Params) (due : Bool) (s : St)
+    (hs : p.initState = true) (hl : p.initLog = true) {a b : Nat} (ha : a < m.nT) (hb : b < m.nT)
+    (hedge : (a, Dep.fs) ∈ (m.task b).inputs) {i j : Nat}
+    (hi : ((simulate (backwardModel m due) p s).logs.tState b)[i]? = some .working)
+    (hj : ((simulate (backwardModel m due) p s).logs.tState a)[j]? = some .working) : i < j :=
+  C17_backward_order m p due s hs hl ha hb ((hsym a b .fs ha hb).mp hedge) hi hj
+
+example : EdgeSym exB ∧ (0, Dep.fs) ∈ (exB.task 1).inputs := ⟨exB_sym, by decide +kernel⟩
+
+/-- **C17 (order in the time-reversed logs, link read from `inputs b`).**  For a model whose
+input and output lists describe the same edges: if `a` is a finish-to-start predecessor of
+`b`, every step at which `a` is logged WORKING in the reversed logs of a backward run comes
+strictly before every step at which `b` is logged WORKING. -/
+theorem C17_reversed_order_partial (m : Model) (hsym : EdgeSym m) (p : Params) (due : Bool) (s : St)
     (hs : p.initState = true) (hl : p.initLog = true) {a b : Nat} (ha : a < m.nT) (hb : b < m.nT)
     (hedge : (a, Dep.fs) ∈ (m.task b).inputs) {i j : Nat}
     (hi : ((backwardSimulate m p due true s).logs.tState a)[i]? = some .working)
@@ -361,5 +412,6 @@ end PDesy
 #print axioms PDesy.C17_backward_persist
 #print axioms PDesy.C17_backward_order
 #print axioms PDesy.C17_reversed_order
-#print axioms PDesy.C17_reversed_order_sym
+#print axioms PDesy.C17_backward_order_partial
+#print axioms PDesy.C17_reversed_order_partial
 #print axioms PDesy.C17_reversed_pred_stopped
